@@ -150,6 +150,10 @@ MUTANTS = [
      "        int_ln1pf_h = jnp.log(2.) * vmap(integrate_f_i, out_axes=0)(w, w0)", "        int_ln1pf_h = jnp.log(2.) * 0.5 * vmap(integrate_f_i, out_axes=0)(w, w0)"),
     ("m107-hetero-conditional-cov-drops-AA", "firing", ["C17", "C16"], A, "HeteroscedasticConditional.get_conditional_cov",
      "        D_x = self.link_function(h) \n        Sigma = self.Sigma + jnp.einsum(", "        D_x = self.link_function(h) \n        Sigma = 2.0 * self.Sigma + jnp.einsum("),
+    ("m108-cosh-bound-cross-term", "firing", ["C17"], A, "HeteroscedasticCoshM1Conditional._lower_bound_integrals",
+     "        nu_1 =  - 2. * fprime_omega[:,None] * b * w", "        nu_1 =  - fprime_omega[:,None] * b * w"),
+    ("m109-class-constant-added", "silent", ["C17", "C16"], A, "",
+     "class HeteroscedasticExpConditional(HeteroscedasticConditional):", "class HeteroscedasticExpConditional(HeteroscedasticConditional):\n    _LINK_NAME = \"exp\""),
     # ---------------- C18
     ("m110-removed-jax-api", "firing", ["C18"], DC, "register_dataclass_type_with_jax_tree_util",
      "        items = sorted(d.__dict__.items())\n        static = tuple", "        items = sorted(jax.util.safe_zip(d.__dict__.keys(), d.__dict__.values()))\n        static = tuple"),
@@ -189,6 +193,10 @@ MUTANTS = [
      "        Ls = jnp.concatenate([L0[None], L1[None], Ls], axis=0)[: order + 1]", "        Ls = jnp.concatenate([L0[None], L1[None], Ls], axis=0)"),
     ("m136-moment-binomial-exponents", "firing", ["C20"], T, "TruncatedGaussianMeasure._get_moment",
      "                * self.density.mu.T ** (order - k_range)\n                * Ls,\n                axis=0,\n            )\n        moments = jnp.where", "                * self.density.mu.T ** k_range\n                * Ls,\n                axis=0,\n            )\n        moments = jnp.where"),
+    ("m138-pdf-std-is-variance", "firing", ["C20"], T, "TruncatedGaussianPDF.get_std",
+     "        return jnp.sqrt(self.get_variance())", "        return self.get_variance()"),
+    ("m139-variance-missing-square", "firing", ["C20"], T, "TruncatedGaussianMeasure._get_variance",
+     "            - (normal_pdf(self.alpha) - normal_pdf(self.beta)) ** 2 / Z**2", "            - (normal_pdf(self.alpha) - normal_pdf(self.beta)) ** 2 / Z"),
     ("m137-moment-recursion-rewrite", "silent", ["C20"], T, "",
      "            L_new = -(beta_pdf - alpha_pdf) / denominator + (k - 1) * L2", "            L_new = (alpha_pdf - beta_pdf) / denominator + L2 * (k - 1)"),
     # ---------------- slices with non-default index semantics, dropped broadcast (from seeded changes of round 2)
